@@ -187,7 +187,11 @@ bool Interp::call(Function &Fn, Frame &F, CallBase &CB, Guard &guard) {
       }
       F.env[&CB] = r; return true;
     }
-    if (starts(n, "llvm.bswap.") || starts(n, "llvm.bitreverse.")) { lanewise(n.substr(5, n.find('.', 5) - 5), 1, false); return true; }
+    if (starts(n, "llvm.bswap.") || starts(n, "llvm.bitreverse.")) {
+      VV a = arg(0); bool allInt = true; for (auto &v : a) if (v.k != AV::INT) allInt = false;
+      if (allInt) { int bits = (int)RT->getScalarSizeInBits(); VV r; for (auto &v : a) { uint64_t x = (uint64_t)v.i & (bits >= 64 ? ~0ULL : ((1ULL << bits) - 1)), y = 0; if (starts(n, "llvm.bitreverse.")) { for (int i = 0; i < bits; i++) if ((x >> i) & 1) y |= 1ULL << (bits - 1 - i); } else { for (int i = 0; i < bits / 8; i++) y |= ((x >> (8 * i)) & 0xFF) << (bits - 8 - 8 * i); } r.push_back(AV::Int(bits < 64 ? (int64_t)(y << (64 - bits)) >> (64 - bits) : (int64_t)y, rb ? rb : 1)); } F.env[&CB] = r; return true; }
+      lanewise(n.substr(5, n.find('.', 5) - 5), 1, false); return true;
+    }
     if (starts(n, "llvm.sadd.sat.") || starts(n, "llvm.uadd.sat.") || starts(n, "llvm.ssub.sat.") || starts(n, "llvm.usub.sat.")) { lanewise(n.substr(5, 8), 2, false); return true; }
     if (starts(n, "llvm.fptosi.sat.") || starts(n, "llvm.fptoui.sat.")) { lanewise(n.substr(5, 10), 1, false); return true; }
     err("llvm intrinsic not modelled: " + n); setTop(); return true;
